@@ -10,7 +10,12 @@ import (
 type RNG struct{ s uint64 }
 
 func NewRNG(seed uint64, salt string) *RNG {
-	return &RNG{seed*0x9E3779B97F4A7C15 + hashString(salt)}
+	// mix the seed thoroughly so that consecutive seeds give unrelated sequences
+	z := seed + 0x632BE59BD9B4E019
+	z = (z ^ (z >> 30)) * 0xBF58476D1CE4E5B9
+	z = (z ^ (z >> 27)) * 0x94D049BB133111EB
+	z ^= z >> 31
+	return &RNG{z ^ hashString(salt)}
 }
 
 func (r *RNG) U64() uint64 {
